@@ -6,6 +6,7 @@ package kcache
 import (
 	"encoding/hex"
 	"fmt"
+	"strconv"
 	"strings"
 
 	"github.com/elastic/go-structform/gotype"
@@ -248,7 +249,9 @@ func run(sc *Scenario, docs [][]byte, te *model.TypeEntry, cd *common.Codec, cap
 			if i < len(sc.Cuts) {
 				cuts = sc.Cuts[i]
 			}
+			x.Alive()
 			_, err := simkit.Feed(cd.NewParser(u), d, cuts, sc.Scribble, &x.Clock)
+			x.Alive()
 			errs = append(errs, err)
 			keep = append(keep, val)
 			if sc.Reset {
@@ -258,6 +261,7 @@ func run(sc *Scenario, docs [][]byte, te *model.TypeEntry, cd *common.Codec, cap
 		// targets are read only after ALL documents went through (and all
 		// buffers were scribbled): a key interned by reference would show
 		for _, val := range keep {
+			x.Alive()
 			out = append(out, model.DeepCopy(val()))
 		}
 	})
@@ -274,15 +278,39 @@ func wide(c *simkit.Choices, x *simkit.Ctx) *simkit.Violation {
 		st.Probe("more-than-65535-distinct-keys")
 	}
 	capacity := []int{n - 1, n, n + 1, 2 * n, 1 << 17}[c.N(5)]
+	if c.N(150) == 0 {
+		// more than 2^20 keys that hardly ever repeat, on a small cache:
+		// whatever the cache measures about itself over a long window
+		n = 1<<20 + 5000 + c.N(1000)
+		capacity = []int{1, 64, 1000, 100000}[c.N(4)]
+		st.Probe("more-than-a-million-distinct-keys")
+	}
+	hugeKey := 0
+	if c.N(40) == 0 {
+		// one key longer than any byte budget a cache may have (17-33 MiB)
+		hugeKey = []int{17 << 20, 33 << 20}[c.N(2)]
+		n = 255
+		st.Probe("one-key-of-tens-of-mib")
+	}
 	f := model.Formats[c.N(3)]
 	cd := common.ByName(f)
 	te := model.TypeByName("map[string]int")
 	prefix := []string{"", "k", "field."}[c.N(3)]
-	key := func(i int) string { return fmt.Sprintf("%s%06d", prefix, i) }
-	first := model.Val{K: model.VObj}
+	key := func(i int) string {
+		d := strconv.Itoa(i)
+		return prefix + "0000000"[:7-len(d)] + d
+	}
+	first := model.Val{K: model.VObj, Keys: make([]string, 0, n), A: make([]model.Val, 0, n)}
 	for i := 0; i < n; i++ {
+		if i&0xffff == 0 {
+			x.Alive()
+		}
 		first.Keys = append(first.Keys, key(i))
 		first.A = append(first.A, model.Int(int64(i)))
+	}
+	if hugeKey > 0 {
+		first.Keys = append(first.Keys, strings.Repeat("K", hugeKey))
+		first.A = append(first.A, model.Int(-1))
 	}
 	again := model.Val{K: model.VObj}
 	for i, k := 0, 4+c.N(12); i < k; i++ {
